@@ -1,2 +1,229 @@
-From Coq Require Import ZArith List.
-From ServerWrite Require Import ServerWriteSpec ServerWriteModel ServerWriteProofs.
+(* Property C13 - "Server clients deliver written bytes completely and in order".
+
+   Objects.  [step : st -> op -> st * out] is the model of one client of Server (ServerWriteModel.v,
+   mirroring src/Socket/Server.cpp after the repair fixes/C13/01); [exec init ops] runs a history.
+   A history is any list of operations: Write d o (any data, the kernel's answer o to the send it may
+   issue), Dispatch n o (one poll event: any readiness n the kernel reports, answer o to the send
+   of backlog), PollReal o, CloseSweep, Suspend, Resume, Read, PeerWrite, PeerRead, PeerClose,
+   Remove.  The kernel's behaviour (o : WouldBlock | Sent k | Full | Zero | Error, and n) is part of
+   the history, so "forall ops" quantifies over all sequences of send outcomes interleaved with all
+   write sizes, suspend/resume calls and peer reads.
+     os_bytes outs      bytes handed to the operating system so far, in order
+     accepted ops outs  concatenation, in call order, of the data of the writes that returned true
+     backlog s          ClientImpl::_sendBuffer
+     peer_got ops outs  bytes the peer has read ; wire s = bytes in flight (kernel, FIFO: assumed)
+     gave_up outs       a send of BACKLOG failed with a real error / returned 0 (connection dropped)
+
+   Clause of the property text                              theorem
+   ---------------------------------------------------------------------------------------------
+   bytes the peer receives = concatenation, in call order,   stream_is_concat_of_accepted
+     of accepted writes; nothing lost/duplicated/reordered   peer_stream_is_prefix_of_os_bytes
+     however the OS splits, delays, refuses sends             peer_receives_concat_of_accepted
+                                                              benign_history_delivers_everything
+                                                              rejected_write_hands_nothing_over (postponed_size...)
+   postponed / send-buffer size = accepted bytes not yet      postponed_size_is_unsent_accepted_bytes
+     handed to the OS                                         send_buffer_size_is_unsent_accepted_bytes
+   onWrite is delivered once that backlog has drained         onWrite_exactly_on_drain   (safety: iff, once)
+                                                              writable_event_sends_backlog (every event that
+                                                                reports the client writable offers the backlog
+                                                                to the OS, readable or not)
+                                                              backlog_drains_within_its_length (liveness bound)
+                                                              unrepaired_dispatch_starves_backlog (the defect
+                                                                of the code before fixes/C13/01, as a theorem)
+   a suspended client gets no read notifications until        suspended_gets_no_onRead
+     it is resumed                                            suspended_state_gets_no_onRead
+   interest set (Server.cpp:348,460,497,505)                  interest_invariant, unregistered_has_no_backlog
+   model = reference object of the property                   model_refines_spec (ServerWriteRefine.v)
+
+   Not proved here (assumed / validated by correspondence only): that the kernel delivers the bytes it
+   accepted to the peer in order (stream socket semantics: [wire] is a FIFO in the model); that the
+   model mirrors Server.cpp (differential check against the ASan/UBSan build under the simulated
+   kernel, checks/C13.py). *)
+From Coq Require Import ZArith List Bool.
+From ServerWrite Require Import ServerWriteSpec ServerWriteModel ServerWriteProofs ServerWriteTheorems ServerWriteRefine.
+Import ListNotations.
+Local Open Scope Z_scope.
+
+(* ---- bytes -------------------------------------------------------------------------------------- *)
+
+Theorem stream_is_concat_of_accepted : forall ops s outs,
+  exec init ops = (s, outs) -> gave_up outs = false -> removed s = false ->
+  os_bytes outs ++ backlog s = accepted ops outs.
+Proof. exact stream_lemma. Qed.
+Print Assumptions stream_is_concat_of_accepted.
+
+Theorem peer_stream_is_prefix_of_os_bytes : forall ops s outs,
+  exec init ops = (s, outs) -> peer_got ops outs ++ wire s = os_bytes outs.
+Proof. exact peer_lemma. Qed.
+Print Assumptions peer_stream_is_prefix_of_os_bytes.
+
+Theorem peer_receives_concat_of_accepted : forall ops s outs,
+  exec init ops = (s, outs) -> gave_up outs = false -> removed s = false ->
+  peer_got ops outs ++ wire s ++ backlog s = accepted ops outs.
+Proof. exact end_to_end_lemma. Qed.
+Print Assumptions peer_receives_concat_of_accepted.
+
+(* the hypotheses above hold for every history in the property's quantifier domain
+   (send outcomes: would-block, any partial count, full; client not removed) *)
+Theorem benign_history_delivers_everything : forall ops s outs,
+  forallb benign_op ops = true -> exec init ops = (s, outs) ->
+  peer_got ops outs ++ wire s ++ backlog s = accepted ops outs.
+Proof. exact benign_stream_lemma. Qed.
+Print Assumptions benign_history_delivers_everything.
+
+(* ---- postponed / send buffer size ------------------------------------------------------------------ *)
+
+Theorem postponed_size_is_unsent_accepted_bytes : forall ops s outs d o s' r,
+  exec init ops = (s, outs) -> gave_up outs = false -> removed s = false ->
+  step s (Write d o) = (s', r) ->
+  (o_ret r = Some true /\
+   o_num r = zlen (accepted (ops ++ [Write d o]) (outs ++ [r])) - zlen (os_bytes (outs ++ [r])) /\
+   o_num r = getSendBufferSize s') \/
+  (o_ret r = Some false /\ o_num r = 0 /\ o_tx r = [] /\ backlog s' = backlog s).
+Proof. exact postponed_lemma. Qed.
+Print Assumptions postponed_size_is_unsent_accepted_bytes.
+
+Theorem send_buffer_size_is_unsent_accepted_bytes : forall ops s outs,
+  exec init ops = (s, outs) -> gave_up outs = false -> removed s = false ->
+  getSendBufferSize s = zlen (accepted ops outs) - zlen (os_bytes outs).
+Proof. exact send_buffer_size_lemma. Qed.
+Print Assumptions send_buffer_size_is_unsent_accepted_bytes.
+
+(* ---- onWrite ------------------------------------------------------------------------------------- *)
+
+Theorem onWrite_exactly_on_drain : forall ops x,
+  let s := fst (exec init ops) in
+  let s' := fst (step s x) in
+  let r := snd (step s x) in
+  (In OnWrite (o_cbs r) <-> backlog s <> [] /\ o_tx r = backlog s /\ backlog s' = []) /\
+  (length (o_cbs r) <= 1)%nat.
+Proof. exact onWrite_lemma. Qed.
+Print Assumptions onWrite_exactly_on_drain.
+
+Theorem writable_event_sends_backlog : forall pre n o,
+  let s := fst (exec init pre) in
+  let s' := fst (step s (Dispatch n o)) in
+  let r := snd (step s (Dispatch n o)) in
+  removed s = false -> backlog s <> [] -> nout n = true ->
+  o_sends r = [(zlen (backlog s), fst (send_ret (zlen (backlog s)) o))] /\
+  (forall k, send_result (zlen (backlog s)) o = RSent k ->
+     o_tx r = ztake k (backlog s) /\ backlog s' = zdrop k (backlog s) /\
+     (In OnWrite (o_cbs r) <-> k = zlen (backlog s))).
+Proof. exact writable_event_reachable_lemma. Qed.
+Print Assumptions writable_event_sends_backlog.
+
+Theorem backlog_drains_within_its_length : forall pre l,
+  let s := fst (exec init pre) in
+  removed s = false -> backlog s <> [] -> forallb pushy l = true ->
+  zlen (backlog s) <= Z.of_nat (length l) ->
+  backlog (fst (exec s l)) = [] /\ count_onWrite (snd (exec s l)) = 1%nat.
+Proof. exact drain_from_reachable_lemma. Qed.
+Print Assumptions backlog_drains_within_its_length.
+
+Theorem unrepaired_dispatch_starves_backlog :
+  reachable starved_state /\ backlog starved_state = [2; 3] /\
+  (forall k, iter_unrepaired k starved_state both_ready Full = (starved_state, repeat (out_cb OnRead) k)) /\
+  backlog (fst (step starved_state (Dispatch both_ready Full))) = [] /\
+  o_cbs (snd (step starved_state (Dispatch both_ready Full))) = [OnWrite].
+Proof. exact unrepaired_starves_lemma. Qed.
+Print Assumptions unrepaired_dispatch_starves_backlog.
+
+(* ---- suspend ------------------------------------------------------------------------------------- *)
+
+Theorem suspended_gets_no_onRead : forall ops x,
+  let s := fst (exec init ops) in
+  susp_of_ops ops false = true -> ~ In OnRead (o_cbs (snd (step s x))).
+Proof. exact suspended_lemma. Qed.
+Print Assumptions suspended_gets_no_onRead.
+
+Theorem suspended_state_gets_no_onRead : forall ops x,
+  let s := fst (exec init ops) in
+  suspended s = true -> ~ In OnRead (o_cbs (snd (step s x))).
+Proof. exact suspended_state_lemma. Qed.
+Print Assumptions suspended_state_gets_no_onRead.
+
+(* ---- interest set ---------------------------------------------------------------------------------- *)
+
+Theorem interest_invariant : forall ops,
+  let s := fst (exec init ops) in
+  registered s = true ->
+  (int_r s = true <-> suspended s = false) /\ (int_w s = true <-> backlog s <> []).
+Proof. exact interest_invariant_lemma. Qed.
+Print Assumptions interest_invariant.
+
+Theorem unregistered_has_no_backlog : forall ops,
+  let s := fst (exec init ops) in registered s = false -> backlog s = [].
+Proof. exact unregistered_has_no_backlog_lemma. Qed.
+Print Assumptions unregistered_has_no_backlog.
+
+(* ---- refinement ------------------------------------------------------------------------------------- *)
+
+Theorem model_refines_spec : forall ops,
+  Forall2 claim_met (snd (spec_exec spec_init ops)) (snd (exec init ops)).
+Proof. exact refinement_lemma. Qed.
+Print Assumptions model_refines_spec.
+
+(* ---- non-vacuity ------------------------------------------------------------------------------------ *)
+
+(* a history with a partial send, an append behind the backlog, a would-block, a suspended phase with a
+   readable+writable report, a drain, and peer reads *)
+Definition ex_ops : list op :=
+  [Write [1; 2; 3; 4; 5] (Sent 2); Write [6; 7] Full; PeerWrite [9]; Suspend;
+   Dispatch (mknative true true false) WouldBlock; Dispatch (mknative true true false) (Sent 1); PeerRead;
+   Resume; Dispatch (mknative true true false) (Sent 2); Dispatch (mknative true true false) Full; PeerRead;
+   Write [8] Zero; Write [] WouldBlock].
+
+Example ex_hyps :
+  gave_up (snd (exec init ex_ops)) = false /\ removed (fst (exec init ex_ops)) = false /\
+  forallb benign_op (firstn 11 ex_ops) = true.
+Proof. vm_compute. auto. Qed.
+
+Example ex_stream :
+  accepted ex_ops (snd (exec init ex_ops)) = [1; 2; 3; 4; 5; 6; 7] /\
+  peer_got ex_ops (snd (exec init ex_ops)) = [1; 2; 3; 4; 5; 6; 7] /\
+  os_bytes (snd (exec init (firstn 6 ex_ops))) = [1; 2; 3] /\
+  backlog (fst (exec init (firstn 6 ex_ops))) = [4; 5; 6; 7] /\
+  peer_got (firstn 7 ex_ops) (snd (exec init (firstn 7 ex_ops))) = [1; 2; 3].
+Proof. vm_compute. repeat split. Qed.
+
+Example ex_postponed :
+  map (fun r => (o_ret r, o_num r)) (firstn 2 (snd (exec init ex_ops))) = [(Some true, 3); (Some true, 5)] /\
+  map (fun r => (o_ret r, o_num r)) (skipn 11 (snd (exec init ex_ops))) = [(Some false, 0); (Some true, 0)].
+Proof. vm_compute. split; reflexivity. Qed.
+
+Example ex_callbacks :
+  callbacks (snd (exec init ex_ops)) = [OnRead; OnWrite] /\
+  map o_cbs (firstn 10 (snd (exec init ex_ops))) = [[]; []; []; []; []; []; []; []; [OnRead]; [OnWrite]].
+Proof. vm_compute. split; reflexivity. Qed.
+
+Example ex_suspended :
+  susp_of_ops (firstn 4 ex_ops) false = true /\ susp_of_ops (firstn 5 ex_ops) false = true /\
+  suspended (fst (exec init (firstn 5 ex_ops))) = true /\
+  registered (fst (exec init (firstn 5 ex_ops))) = true /\
+  int_r (fst (exec init (firstn 5 ex_ops))) = false /\ int_w (fst (exec init (firstn 5 ex_ops))) = true.
+Proof. vm_compute. repeat split. Qed.
+
+Example ex_writable_event :
+  let s := fst (exec init (firstn 8 ex_ops)) in
+  removed s = false /\ backlog s = [4; 5; 6; 7] /\
+  send_result 4 (Sent 2) = RSent 2 /\
+  snd (step s (Dispatch (mknative true true false) (Sent 2))) =
+    mkout None 0 [OnRead] [4; 5] [(4, 2)] [] false false.
+Proof. vm_compute. repeat split. Qed.
+
+Example ex_drain :
+  let s := fst (exec init (firstn 8 ex_ops)) in
+  let l := [Dispatch (mknative true true false) (Sent 1); PollReal (Sent 1); Dispatch (mknative false true true) (Sent 1);
+            PollReal Full; PollReal Full] in
+  forallb pushy l = true /\ zlen (backlog s) <= Z.of_nat (length l) /\
+  backlog (fst (exec s l)) = [] /\ callbacks (snd (exec s l)) = [OnRead; OnRead; OnRead; OnWrite; OnRead].
+Proof. vm_compute. repeat split; congruence. Qed.
+
+Example ex_unregistered :
+  let s := fst (exec init [Write [1; 2] WouldBlock; Dispatch (mknative false true false) Error]) in
+  registered s = false /\ backlog s = [] /\ gave_up (snd (exec init [Write [1; 2] WouldBlock; Dispatch (mknative false true false) Error])) = true.
+Proof. vm_compute. repeat split. Qed.
+
+Example ex_refinement :
+  snd (spec_exec spec_init ex_ops) = map Some (snd (exec init ex_ops)).
+Proof. vm_compute. reflexivity. Qed.
